@@ -258,4 +258,62 @@ def chpubSteps (st : St) (old : Pass) : List (String × Nat × Term) :=
 def chpubStepB (C : BCrypto) (ρ : PubVal) (new : Pass) (s : String × Nat × Term) : Bytes × Bytes × Bytes :=
   (C.walletId s.1, valBytes C ρ (s.1, .mpub) (paramsT s.2.1 new), valBytes C ρ (s.1, .cpub) (.enc (masterKey s.2.1 new) s.2.2))
 
+-- ------------------------------------------------------------------ the byte-level machine, in lockstep with the symbolic one
+
+/-- the public data of the wallets: the coin type and the plaintexts of the public boxes (extended public keys, public keys) -/
+structure PubData where
+  coin : Nat
+  plain : Key → Bytes
+
+/-- the public valuation of a state: fixed formats, the counters of the wallet records, the public data -/
+def pubValsOf (π : PubData) (wal : AMap.T String (WRec × AM)) : PubVal := fun K =>
+  let r := ((AMap.get wal K.1).map (·.1)).getD default
+  match K.2 with
+  | .aid => [0]
+  | .kver => [0]
+  | .coinType => u32Bytes π.coin
+  | .account => u32Bytes MW.Gen.Keystore.walletUsage
+  | .exNum => u32Bytes r.nExt
+  | .inNum => u32Bytes r.nInt
+  | _ => π.plain K
+
+/-- the installer for the account `w` that the symbolic step has just installed (`st'` = the state after the step) -/
+def installB (C : BCrypto) (π : PubData) (st' : St) (t : Tree) (w : String) (privParams mkPriv : Term) (p : Pass) (n k0 : Nat) :
+    Except Err Tree :=
+  match AMap.get st'.wal w with
+  | none => .error .shape
+  | some (r, _) =>
+    initAcctBucketB t (acctInOf C (pubValsOf π st'.wal) π.coin w r.ent p r.nExt r.nInt privParams mkPriv
+      (paramsT n st'.pubPass) (masterKey n st'.pubPass) k0 (k0 + 1) (k0 + 2))
+
+/-- one operation at byte level: the writers of the operation when the symbolic machine performs it, nothing otherwise
+    (refused operations and the reading operations write nothing) -/
+def stepB (C : BCrypto) (π : PubData) (st : St) (t : Tree) (op : Op) : Except Err Tree :=
+  let st' := (step st op).1
+  match op, (step st op).2 with
+  | .create w p _, .ok =>
+    installB C π st' t w (paramsT (st.nonce + 1) p) (masterKey (st.nonce + 1) p) p st.nonce (st.nonce + 2)
+  | .newAddr w, .ok =>
+    match AMap.get st.wal w with
+    | some (r, _) =>
+      newAddrB t (C.walletId w) r.nExt (valBytes C (pubValsOf π st'.wal) (w, .pubk 0 r.nExt) (dbGet st'.db w (.pubk 0 r.nExt)))
+    | none => .error .shape
+  | .importKS k p, .ok =>
+    match AMap.get st.exports k with
+    | some x => installB C π st' t x.wallet x.privParams ((deriveKey x.privParams p).getD (.pub "missing")) p st.nonce (st.nonce + 1)
+    | none => .error .shape
+  | .importMn _ p _ _ _, .okName name =>
+    installB C π st' t name (paramsT (st.nonce + 1) p) (masterKey (st.nonce + 1) p) p st.nonce (st.nonce + 2)
+  | .remove w _, .ok => .ok (removeB t (C.walletId w))
+  | .chpub o n, .ok => chpubAllB t ((chpubSteps st o).map (chpubStepB C (pubValsOf π st.wal) n))
+  | _, _ => .ok t
+
+/-- a history at byte level, next to the symbolic run -/
+def runB (C : BCrypto) (π : PubData) : St → Tree → List Op → Except Err Tree
+  | _, t, [] => .ok t
+  | st, t, op :: ops =>
+    match stepB C π st t op with
+    | .ok t' => runB C π (step st op).1 t' ops
+    | .error e => .error e
+
 end MW.Model.KsBytes
